@@ -92,8 +92,10 @@ def main():
             if k in o:
                 meta[k] = o[k]
         meta["ran"] += [x for x in o.get("ran", []) if x.startswith("test suite")]
-    shutil.copy(a.patch, os.path.join(d, "patch.diff"))
-    shutil.copy(a.demo, os.path.join(d, "demo.py"))
+    for src, name in ((a.patch, "patch.diff"), (a.demo, "demo.py")):
+        dst = os.path.join(d, name)
+        if os.path.abspath(src) != os.path.abspath(dst):
+            shutil.copy(src, dst)
     json.dump(meta, open(os.path.join(d, "meta.json"), "w"), indent=1)
     print(json.dumps({k: meta[k] for k in ("id", "demo_clean_exit", "demo_patched_exit", "detected_by")}
                      | ({"suite_ok": meta["suite_ok"]} if "suite_ok" in meta else {})
